@@ -154,31 +154,42 @@ func (g *DirectedTargetGraph) GetDependants(target model.BuildNode) []model.Buil
 }
 
 // GetDescendants returns a list of nodes that are descendants (dependants) of the given node.
-// Recurses via the outEdges of each node.
+// Every descendant is returned exactly once, no matter how many paths lead to it.
 func (g *DirectedTargetGraph) GetDescendants(target model.BuildNode) []model.BuildNode {
-	var descendants []model.BuildNode
-	for _, descendant := range g.outEdges[target.GetLabel()] {
-		descendants = append(descendants, descendant)
-
-		// Recurse
-		recursiveDescendants := g.GetDescendants(descendant)
-		descendants = append(descendants, recursiveDescendants...)
-	}
-	return descendants
+	return g.collectReachable(target, g.outEdges)
 }
 
 // GetAncestors returns a list of nodes that are ancestors (transitive dependencies) of the given node.
-// Recurses via the inEdges of each node.
+// Every ancestor is returned exactly once, no matter how many paths lead to it.
 func (g *DirectedTargetGraph) GetAncestors(target model.BuildNode) []model.BuildNode {
-	var ancestors []model.BuildNode
-	for _, ancestor := range g.inEdges[target.GetLabel()] {
-		ancestors = append(ancestors, ancestor)
+	return g.collectReachable(target, g.inEdges)
+}
 
-		// Recurse
-		recursiveAncestors := g.GetAncestors(ancestor)
-		ancestors = append(ancestors, recursiveAncestors...)
+// collectReachable returns all nodes reachable from start via the given edge map
+// (excluding start itself) in depth-first discovery order.
+// A visited set keeps the traversal linear in the size of the graph:
+// without it every path would be walked, which is exponential for diamond-shaped graphs.
+func (g *DirectedTargetGraph) collectReachable(
+	start model.BuildNode,
+	edges map[label.TargetLabel][]model.BuildNode,
+) []model.BuildNode {
+	visited := map[label.TargetLabel]bool{start.GetLabel(): true}
+	var reachable []model.BuildNode
+
+	var visit func(node model.BuildNode)
+	visit = func(node model.BuildNode) {
+		for _, next := range edges[node.GetLabel()] {
+			if visited[next.GetLabel()] {
+				continue
+			}
+			visited[next.GetLabel()] = true
+			reachable = append(reachable, next)
+			visit(next)
+		}
 	}
-	return ancestors
+	visit(start)
+
+	return reachable
 }
 
 // hasNode checks whether a node exists in the graph.
